@@ -98,8 +98,8 @@ Theorem holder_in_op_moves : forall cf progs s a la c,
 Proof. exact holder_in_op_enabled_l. Qed.
 
 (* ---------- non-vacuity ---------- *)
-Definition cf_g : config := Cfg FGuarded MTimed true 5 [].
-Definition cf_o : config := Cfg FOrdered MSharedTimed true 5 [].
+Definition cf_g : config := Cfg FGuarded MTimed true 5 [] false.
+Definition cf_o : config := Cfg FOrdered MSharedTimed true 5 [] false.
 Definition rep (t n : nat) : list (nat * nat) := repeat (t, 0%nat) n.
 
 (* two threads increment under an exclusive handle; thread 0 is inside its write window, thread 1 is
@@ -133,3 +133,14 @@ Example ex_kept_handle_blocks : keeps_or_nests cf_g ex_stuck /\ wf_progs cf_g [[
 Proof.
   split; [|reflexivity]. exists 0%nat, (locof (thr ex_stuck) 0). vm_compute. repeat split; auto.
 Qed.
+
+(* the plain payload kind (guarded<long, timed_mutex>): the accesses of the wrapped object are invisible, they run
+   in the step of the preceding visible operation - after its lock step a load is already at the destructor of
+   its lock_guard with the value read, and it excludes the store exactly as before *)
+Definition cf_pl : config := Cfg FGuarded MTimed true 5 [] true.
+Definition ex_plain := run glob loc (tstep cf_pl) (init cf_pl [[Load]; [Store 3]]) (rep 0 2 ++ rep 1 2).
+Example ex_plain_load :
+  at_ (locof (thr ex_plain) 0) = GRel Load 1 5 false /\ in_excl_access cf_pl ex_plain 0 /\
+  at_ (locof (thr ex_plain) 1) = GAcq (Store 3) /\ tstep cf_pl 1 0 (gl ex_plain) (locof (thr ex_plain) 1) = None /\
+  val (gl (run glob loc (tstep cf_pl) ex_plain (rep 0 1 ++ rep 1 2))) = 3.
+Proof. vm_compute. repeat split; auto. Qed.
